@@ -254,7 +254,7 @@ func main() {
 		{"empty newest table dir", func(dir string) { must(os.MkdirAll(filepath.Join(dir, tbl(4)), 0700)) }, t1 + "," + t2 + "," + t3 + ",4:partial", W, "", ""},
 		{"index+data complete, EMPTY meta => discarded", func(dir string) { must(os.Truncate(filepath.Join(dir, tbl(3), "meta.pb.bin"), 0)) }, t1 + "," + t2 + ",3:partial", W, "", ""},
 		{"middle table, EMPTY meta => discarded", func(dir string) { must(os.Truncate(filepath.Join(dir, tbl(2), "meta.pb.bin"), 0)) }, t1 + ",2:partial," + t3, W, "", ""},
-		{"index+data complete, NO meta file => kept as legacy table", func(dir string) { must(os.Remove(filepath.Join(dir, tbl(2), "meta.pb.bin"))) }, t1 + ",2:" + h("a") + "=-;" + h("c") + "=-," + t3, W, "", ""},
+		{"index+data complete, NO meta file (hand-made; recovery cannot produce it any more) => kept as legacy table", func(dir string) { must(os.Remove(filepath.Join(dir, tbl(2), "meta.pb.bin"))) }, t1 + ",2:" + h("a") + "=-;" + h("c") + "=-," + t3, W, "", ""},
 		{"index+data headers only, NO meta file => loads as empty table", func(dir string) {
 			must(os.Truncate(filepath.Join(dir, tbl(3), "index.rio"), 8))
 			must(os.Truncate(filepath.Join(dir, tbl(3), "data.rio"), 8))
